@@ -49,7 +49,7 @@ MANIFEST = {
     "technique": "Lean 4 theorems over executable agent models; models tied by regenerated tables and a differential rig",
     "design_ref": "5/C19",
 }
-MODULES = ["PrimaiteModel.Props.C19", "PrimaiteModel.Props.C19Sched", "PrimaiteModel.Props.C19Run", "PrimaiteModel.Props.C19Params", "PrimaiteModel.Props.C19Sampler", "PrimaiteModel.Props.C19Nodes", "PrimaiteModel.Props.C19More", "PrimaiteModel.Props.C19Live", "PrimaiteModel.Props.C19NoRaise", "PrimaiteModel.Props.C19Ctl"]
+MODULES = ["PrimaiteModel.Props.C19", "PrimaiteModel.Props.C19Sched", "PrimaiteModel.Props.C19Run", "PrimaiteModel.Props.C19Params", "PrimaiteModel.Props.C19Sampler", "PrimaiteModel.Props.C19Nodes", "PrimaiteModel.Props.C19More", "PrimaiteModel.Props.C19Live", "PrimaiteModel.Props.C19NoRaise", "PrimaiteModel.Props.C19Wf", "PrimaiteModel.Props.C19Ctl"]
 EXE = "drv_c19"
 KINDS = ["periodic", "prob", "probn", "tap1", "tap3", "rand"]
 
@@ -177,8 +177,10 @@ def run(ctx: Ctx):
         # property oracle on the implementation alone, licensed by theorem C19_tap3_validated_never_raises: a TAP003 whose
         # settings were accepted and whose responses are well formed (a failure carries a reason, a success the login data)
         # never raises, whatever the draws and responses
-        if kind == "tap3" and impl and impl[0].startswith("ok") and all(_wf_resp(st["resp"]) for st in case["steps"]):
+        if kind == "tap3" and impl and impl[0].startswith("ok") and (all(_wf_resp(st["resp"]) for st in case["steps"]) or _sim_ok(case, impl)):
             ctx.count("tap3:validated+well-formed cases (no-raise oracle applies)")
+            if not all(_wf_resp(st["resp"]) for st in case["steps"]):
+                ctx.count("tap3:… of which only SimOk holds (failed responses without a reason; theorem …_never_raises_sim)")
             j = next((j for j, l in enumerate(impl) if l == "raised"), -1)
             if j >= 1:
                 ctx.violation({"kind": "oracle", "agent": "tap3", "what": "validated-agent-raised"},
@@ -225,6 +227,20 @@ def run(ctx: Ctx):
 def _wf_resp(r: dict) -> bool:
     """`Tap3.Resp.wf`."""
     return (r["ok"] or r.get("hasReason", True)) and ((not r["ok"]) or r.get("hasLoginData", True))
+
+
+def _sim_ok(case: dict, impl: List[str]) -> bool:
+    """`Tap3.RunSimOk` on the implementation's own actions: every do-nothing was answered with success, every successful
+    remote login with its data (up to the first raise, whose own response is never read)."""
+    for j, st in enumerate(case["steps"]):
+        if j + 1 >= len(impl) or impl[j + 1] == "raised":
+            break
+        act, r = impl[j + 1].split()[0], st["resp"]
+        if act == "do-nothing" and not r["ok"]:
+            return False
+        if act == "node-session-remote-login" and r["ok"] and not r.get("hasLoginData", True):
+            return False
+    return True
 
 
 def _nontrivial(kind: str, case: dict, impl: List[str]) -> bool:
